@@ -17,6 +17,7 @@ import (
 	"encoding/hex"
 	"fmt"
 	"os"
+	"runtime"
 	"sort"
 	"time"
 
@@ -31,6 +32,7 @@ import (
 
 type Handler struct {
 	workdir string
+	tainted bool // goroutines of an earlier history are still alive: leave before they can be blamed on the next one
 }
 
 func New() sup.Handler { return &Handler{} }
@@ -332,6 +334,24 @@ func hexList(v interface{}) []string {
 }
 
 func (h *Handler) Handle(req map[string]interface{}) interface{} {
+	if h.tainted {
+		// exit without a Go panic: the supervisor retries this request on a fresh worker
+		os.Exit(3)
+	}
+	base := runtime.NumGoroutine()
+	resp := h.handle(req)
+	// every history must leave the process as it found it
+	for n := 0; n < 100 && runtime.NumGoroutine() > base; n++ {
+		time.Sleep(20 * time.Millisecond)
+	}
+	if extra := runtime.NumGoroutine() - base; extra > 0 {
+		h.tainted = true
+		resp["stray_goroutines"] = extra
+	}
+	return resp
+}
+
+func (h *Handler) handle(req map[string]interface{}) map[string]interface{} {
 	resp := map[string]interface{}{"i": req["i"]}
 	if h.workdir == "" {
 		d, err := os.MkdirTemp("", "vkeyenc_work_")
